@@ -31,6 +31,12 @@ CONFIGS = [
     ("rt2", "MC_Flurry", "MC_rt2.cfg", {"C13", "C07"}, "ok", "quick", ["RtReval", "XStoreFwd"]),
     ("rt3", "MC_Flurry", "MC_rt3.cfg", {"C13"}, "ok", "quick", ["RtReval"]),
     ("rt1_mutant", "MC_Flurry", "MC_rt1_mutant.cfg", {"C13"}, "RetainOK", "quick", []),
+    # abstract tree bins (header + traversal list; TT = 2, MTC = 2, UT = 1): treeification, removals that turn the bin
+    # back into a list, a resize that splits / reuses the tree bin, head re-validation after waiting for the bin lock
+    ("tree1", "MC_Flurry", "MC_tree1.cfg", {"C01", "C05", "C10"}, "ok", "quick", ["TfReval", "XReval"]),
+    ("tree2", "MC_Flurry", "MC_tree2.cfg", {"C10", "C01"}, "ok", "thorough", ["TfReval", "XStoreHi"]),
+    ("tree3", "MC_Flurry", "MC_tree3.cfg", {"C10", "C05"}, "ok", "quick", ["TfReval", "XReval"]),
+    ("tree3_mutant", "MC_Flurry", "MC_tree3_mutant.cfg", {"C10"}, "ResizeSafe", "quick", []),
     ("clr1", "MC_Flurry", "MC_clr1.cfg", {"C05", "C10"}, "ok", "quick", ["ClrReval", "XStoreFwd"]),
     ("clr2", "MC_Flurry", "MC_clr2.cfg", {"C05", "C07"}, "ok", "quick", ["ClrReval", "ItYield"]),
     # reserve() / try_presize racing the lazy initialisation and an insert (null table, DCAP = 2, one resize)
@@ -62,7 +68,7 @@ def run_for(pid, tier, workers=6):
             continue
         if ctier == "thorough" and tier != "thorough":
             continue
-        want_cov = bool(must) and pid in ("C01", "C07", "C10", "C11", "C13", "C14")
+        want_cov = bool(must) and pid in ("C01", "C05", "C07", "C10", "C11", "C13", "C14")
         if expect == "sim":
             r = lib.run_tlc(module, cfg=cfg, workers=workers, timeout=1500, simulate=300000, depth=150, xmx="8g")
             if "Error:" in r["out"] and "violated" in r["out"]:
